@@ -96,21 +96,21 @@ package panos
 //vc:  init panSrcLen = 0
 //vc:  assign at "v1.Services = append(v1.Services, v2.Services...)" panMergeLen = len(v1.Rules)
 //vc:  assign at "v1.Services = append(v1.Services, v2.Services...)" panSrcLen = len(v2.Rules)
-//vc:  invariant[C18] 1 "for _, r := range v2.Rules" -1 <= rangeindex && rangeindex < panSrcLen && len(top) + len(v1.Rules) == panMergeLen + rangeindex + 1 && panMergeLen <= len(v1.Rules) &&
+//vc:  invariant[C18,C03] 1 "for _, r := range v2.Rules" -1 <= rangeindex && rangeindex < panSrcLen && len(top) + len(v1.Rules) == panMergeLen + rangeindex + 1 && panMergeLen <= len(v1.Rules) &&
 //vc:      (forall j int :: 0 <= j && j < len(top) ==> top[j].Append == nil)
 // a vsys that exists only in the raw / IPv6 part is linked into the merged
 // configuration as the last vsys of its first device entry, under its name
 //vc:  init panLinked = false
 //vc:  assign after "d1.Vsys = append(d1.Vsys, v1)" panLinked = len(callresult) > 0 && callresult[len(callresult) - 1] == v1 && v1.Name == v2.Name && p1 != nil && p1.Devices != nil && len(p1.Devices.Entries) > 0 && p1.Devices.Entries[0] == d1
-//vc:  ensures[C18] @newVsysLinked v1 == nil && v2 != nil ==> panLinked
+//vc:  ensures[C18,C03] @newVsysLinked v1 == nil && v2 != nil ==> panLinked
 // every kind of object of the other part is carried over (service groups were forgotten: fix in /verif/known-findings.txt)
 //vc:  assign at "v1.Addresses = append(v1.Addresses, v2.Addresses...)" panLenAddr = len(v1.Addresses)
 //vc:  assign at "v1.Addresses = append(v1.Addresses, v2.Addresses...)" panLenGrp = len(v1.AddressGroups)
 //vc:  assign at "v1.Addresses = append(v1.Addresses, v2.Addresses...)" panLenSrv = len(v1.Services)
 //vc:  assign at "v1.Addresses = append(v1.Addresses, v2.Addresses...)" panLenSGrp = len(v1.ServiceGroups)
-//vc:  assert[C18] at "v1.Rules = append(top, v1.Rules...)" @allObjectKindsMerged len(v1.Addresses) == panLenAddr + len(v2.Addresses) && len(v1.AddressGroups) == panLenGrp + len(v2.AddressGroups) && len(v1.Services) == panLenSrv + len(v2.Services) && len(v1.ServiceGroups) == panLenSGrp + len(v2.ServiceGroups)
-//vc:  assert[C18] at "v1.Rules = append(top, v1.Rules...)" @noRuleLost len(top) + len(v1.Rules) == panMergeLen + panSrcLen
-//vc:  assert[C18] at "v1.Rules = append(top, v1.Rules...)" @onlyUnmarkedRulesOnTop forall j int :: 0 <= j && j < len(top) ==> top[j].Append == nil
+//vc:  assert[C18,C03] at "v1.Rules = append(top, v1.Rules...)" @allObjectKindsMerged len(v1.Addresses) == panLenAddr + len(v2.Addresses) && len(v1.AddressGroups) == panLenGrp + len(v2.AddressGroups) && len(v1.Services) == panLenSrv + len(v2.Services) && len(v1.ServiceGroups) == panLenSGrp + len(v2.ServiceGroups)
+//vc:  assert[C18,C03] at "v1.Rules = append(top, v1.Rules...)" @noRuleLost len(top) + len(v1.Rules) == panMergeLen + panSrcLen
+//vc:  assert[C18,C03] at "v1.Rules = append(top, v1.Rules...)" @onlyUnmarkedRulesOnTop forall j int :: 0 <= j && j < len(top) ==> top[j].Append == nil
 
 // ---- C17: password and API key never reach the session log or an error text ----
 // httpGet hands its URL to net/http, whose transport errors quote it; a
